@@ -77,17 +77,24 @@ func allDigits(s string) bool {
 	return len(s) == 0 || '0' <= s[0] && s[0] <= '9' && allDigits(s[1:])
 }
 
-func decVal(s string) int {
+// decVal: the number a string of decimal digits denotes, saturating at MaxUint64 (so that it is a
+// total executable Go function; ParseUint refuses everything above MaxUint64).
+func decVal(s string) uint64 {
 	if len(s) == 0 {
 		return 0
 	}
-	return decVal(s[:len(s)-1])*10 + int(s[len(s)-1]-'0')
+	if decVal(s[:len(s)-1]) > (18446744073709551615-uint64(s[len(s)-1]-'0'))/10 {
+		return 18446744073709551615
+	}
+	return decVal(s[:len(s)-1])*10 + uint64(s[len(s)-1]-'0')
 }
 
 //@ extern func strconv.ParseUint(s string, base int, bitSize int) (v uint64, err error)
 //@   pure
 //@   ensures fits:   err == nil ==> fitsUint(v, bitSize)
 //@   ensures digits: base == 10 && err == nil ==> len(s) > 0 && allDigits(s)
+//@   ensures value:  base == 10 && err == nil ==> decVal(s) == v
+//@   ensures accept: base == 10 && bitSize == 64 && len(s) > 0 && allDigits(s) && decVal(s) < 18446744073709551615 ==> err == nil
 //@ extern func strconv.Atoi(s string) (v int, err error)
 //@   pure
 //@ extern func strconv.ParseBool(s string) (v bool, err error)
